@@ -435,7 +435,8 @@ def gen_element_case(rng, cls: Optional[str] = None) -> dict:
             r2 = FU.gen_full(rng, lf["cls"], lf["name"], p_set=1.0)
             _tame(rng, r2)
             keep = {p: v for p, v in r2["args"].items()
-                    if v is not None and not isinstance(v, list) and p not in ("name", "dtype", "device") and rng.random() < 0.5}
+                    if v is not None and (not isinstance(v, list) or (p == "misalignment" and len(v) == 2 and not isinstance(v[0], list)))
+                    and p not in ("name", "dtype", "device") and rng.random() < 0.5}
             if lf["cls"] in ("Dipole", "RBend", "TransverseDeflectingCavity"):
                 keep.pop("tracking_method", None)      # (kept valid: these classes track with one method only / known findings)
             if keep:
